@@ -5,7 +5,22 @@
    join rules, power levels, creators, joined users) are read off the concrete events here with the
    accessor models of VModel.Event / VModel.Auth, the same way the Go accessors read them.
 
-   handshake.sendjoin  ver cls ev roomID reqEventID origin local senderQ verify cur
+   handshake.sendjoin  ver cls ev evType roomID reqEventID origin local senderQ verify cur
+       ver         room version of the request (unknown versions are generated too)
+       cls         what NewEventFromUntrustedJSON makes of the body: o (clean) / p (too large but persistable: refused here) / x (unparseable)
+       ev          <hex event ID>:<hex JSON> as the library reads it back ("-" for class x); a received event may already
+                   carry an entry under (local server, local key ID) in `signatures` — planted, never the local server's
+       evType      hex of the event's `type` as `PDU.Type()` reports it ("-" = the empty type, and for class x).  The harness
+                   refuses the op (`err:construct:type`) unless the library's accessor says the same, the driver (`bad-op`)
+                   unless the accessor model does.  C15's "it is a join" is about THIS: only `m.room.member` is a join.
+       roomID, reqEventID   hex, the request path       origin, local   requesting / local server name
+       senderQ     UserIDQuerier ok / err
+       verify      the caller's verifier, asked whether ORIGIN validly signed the redacted event at the event's timestamp:
+                   good / bad / err (any other question — other name, message or time — is answered "bad" by the harness mock)
+       cur         MembershipQuerier.CurrentMembership: "err" | "m:<membership>"
+     outcome: err:<class> | ok:aj=<AlreadyJoined>:sig=<1 iff the returned event carries a signature under (local, key ID) that
+     VERIFIES with the real local public key over its redacted form>:unmod=<1 iff it equals the received event apart from that
+     one slot and `unsigned`>:signer=<local>.  The specification stream demands `sig=1:unmod=1` of everything returned.
    handshake.makejoin  ver remoteVers userID origin local inRoom roomID jr pending pl create rooms tmode tstate
    handshake.makeleave ver userID origin inRoom roomID tmode tstate
    handshake.invite    ver ev roomID invitedUser senderQ verify known stripped stateq cur
@@ -148,6 +163,21 @@ def builtJoinEvent (ver : Bytes) (fmt1 : Bool) (joiner roomID : Bytes) (authIDs 
 def showSigned (aj : Option Bool) (s : Signed) : String :=
   "ok" ++ (match aj with | some b => ":aj=" ++ (if b then "1" else "0") | none => "") ++ ":sig=1:unmod=1:signer=" ++ bytesStr s.signer
 
+/-- what the property demands of a response of HandleSendJoin, written without reference to the model's answer:
+    "whatever they return additionally carries a valid signature of the local server over the unmodified event"
+    (`sig=1`: the harness verified the entry under (local server, key ID) with the real local key; `unmod=1`: nothing
+    else changed), and AlreadyJoined says whether the user is joined. -/
+def demandedSendJoin (i : SendJoinIn) : String :=
+  "ok:aj=" ++ (if i.curMembership == some b!"join" then "1" else "0") ++ ":sig=1:unmod=1:signer=" ++ bytesStr i.localServer
+
+/-- specification stream of the two send_join ops: a refusal where the guards fail; where they hold and the handler
+    answers, the answer must be `demandedSendJoin`; a refusal on passing guards (querier / verifier failures, undecodable
+    content) is compared with the model only through the model's own class. -/
+def withSpecSendJoin (m : String) (guards : Bool) (i : SendJoinIn) : String :=
+  if !guards then (if m.startsWith "err" then m ++ "\t" ++ m else m ++ "\t" ++ "err:must-reject")
+  else if m.startsWith "err" then m ++ "\t" ++ m
+  else m ++ "\t" ++ demandedSendJoin i
+
 /-- combine the model outcome with the property's guard predicate into the specification stream:
     where the guards fail the property demands a refusal -/
 def withSpec (m : String) (guards : Bool) : String :=
@@ -157,14 +187,15 @@ def withSpec (m : String) (guards : Bool) : String :=
 
 def handle (op : String) (args : Array String) : Option String :=
   match op, args.toList with
-  | "sendjoin", [ver, cls, ev, roomID, reqEventID, origin, localS, senderQ, verify, cur] =>
+  | "sendjoin", [ver, cls, ev, evType, roomID, reqEventID, origin, localS, senderQ, verify, cur] =>
     let v := strBytes ver
     if v == b!"org.matrix.msc4014" then some "skip:pseudo-id version" else
     let known := knownVersion v
     let e : Event := if cls == "o" || cls == "p" then (parseEvArg v ev).getD default else default
+    if e.type != unhexD evType then some "bad-op" else
     let (dec, via) := memberContentOf e
     let i : SendJoinIn := {
-      versionKnown := known, parses := cls == "o",
+      versionKnown := known, parses := cls == "o", evType := e.type,
       stateKey := e.stateKey, sender := e.sender, eventRoomID := e.roomID, eventID := e.eventID,
       membership := membershipOf e, contentDecodes := dec, authorisedVia := via,
       roomID := unhexD roomID, reqEventID := unhexD reqEventID, requestOrigin := strBytes origin,
@@ -174,7 +205,7 @@ def handle (op : String) (args : Array String) : Option String :=
     let m := match handleSendJoin i with
       | .ok o => showSigned (some o.alreadyJoined) o.sig
       | .error er => showHErr er
-    some (withSpec m (Spec.sendJoinGuards i))
+    some (withSpecSendJoin m (Spec.sendJoinGuards i) i)
   | "makejoin", [ver, remoteVers, userID, origin, _localS, inRoom, roomID, jr, pending, pl, create, rooms, tmode, tstate] =>
     let v := strBytes ver
     match versionRow? v with
@@ -330,13 +361,14 @@ def handle (op : String) (args : Array String) : Option String :=
       let guards := checkCreate knownVersion create &&
         (FedCheck.Spec.sendJoin O p (FedCheck.untrusted A) (FedCheck.untrusted S) ev).isSome
       some (withSpec m guards)
-  | "sendjoin_pseudo", [ver, cls, ev, roomID, reqEventID, origin, localS, senderQ, verify, store, selfok, cur] =>
+  | "sendjoin_pseudo", [ver, cls, ev, evType, roomID, reqEventID, origin, localS, senderQ, verify, store, selfok, cur] =>
     -- HandleSendJoin for org.matrix.msc4014 (encoding: VDriver/HandshakeInvite.lean)
     let v := strBytes ver
     let e : Event := if cls == "o" then (parseEvArg v ev).getD default else default
+    if e.type != unhexD evType then some "bad-op" else
     let (dec, via) := memberContentOf e
     let base : SendJoinIn := {
-      versionKnown := knownVersion v, parses := cls == "o",
+      versionKnown := knownVersion v, parses := cls == "o", evType := e.type,
       stateKey := e.stateKey, sender := e.sender, eventRoomID := e.roomID, eventID := e.eventID,
       membership := membershipOf e, contentDecodes := dec, authorisedVia := via,
       roomID := unhexD roomID, reqEventID := unhexD reqEventID, requestOrigin := strBytes origin,
@@ -355,7 +387,7 @@ def handle (op : String) (args : Array String) : Option String :=
     let m := match handleSendJoinPseudo i with
       | .ok o => showSigned (some o.alreadyJoined) o.sig
       | .error er => showHErr er
-    some (withSpec m (Spec.sendJoinPseudoGuards i))
+    some (withSpecSendJoin m (Spec.sendJoinPseudoGuards i) base)
   -- PerformInvite: VDriver.HandshakeInvite
   | _, _ => HandshakeInviteOps.handle op args
 
